@@ -252,28 +252,5 @@ def check_control_loop_clone(idx: Index, rep: Report):
 
 
 def check_frequency_split(idx: Index, rep: Report):
-    rule = "K9.frequency-split"
-    f = idx.function(f"{POST}::split_frequency_dict")
-    oi = [n for n in own_nodes(f.node) if isinstance(n, ast.Assign) and norm(n.targets[0]) == "other_indices"]
-    ok = bool(oi) and norm(oi[0].value) == "[i for i in range(key_length) if i not in indices]"
-    rep.decide(ok, rule, f, oi[0] if oi else f.node, text="other_indices = complement of indices", what="the two marginals are taken over complementary index sets",
-               reason=f"other_indices = {norm(oi[0].value) if oi else '?'}")
-    txt = full(f.node)
-    ok = "midcirc_dict = strip_post_selection(frequencies, *other_indices)" in txt and "marginal_dict = strip_post_selection(frequencies, *indices)" in txt
-    rep.decide(ok, rule, f, f.node, text="mid-circuit part removes the other indices; final part removes the mid-circuit indices",
-               what="each part is obtained by removing exactly the other part's positions", reason="marginalisation arguments changed")
-    ok = "expected_outcomes = {i: m for i, m in zip(indices, desired_measurement)}" in txt and "marginal_dict = post_select(frequencies, expected_outcomes)" in txt
-    rep.decide(ok, rule, f, f.node, text="post-selection pairs index i with the i-th requested character", what="post-selection keeps outcomes whose mid-circuit bits equal the request",
-               reason="post-selection mapping changed")
-    g = idx.function(f"{POST}::split_frequency_dict_for_last_n_digits")
-    sl = [n for n in own_nodes(g.node) if isinstance(n, ast.Assign) and isinstance(n.targets[0], ast.Tuple)]
-    ok = bool(sl) and norm(sl[0].value) == "(measure[:n_measure - n], measure[n_measure - n:])"
-    rep.decide(ok, rule, g, sl[0] if sl else g.node, text="measure = head + last n characters", what="each bitstring is cut into the part before and the last n characters",
-               reason=f"split {norm(sl[0].value) if sl else '?'}")
-    accs = [n for n in own_nodes(g.node) if isinstance(n, ast.Assign) and isinstance(n.targets[0], ast.Subscript) and norm(n.targets[0].value) in ("freqs1", "freqs2")]
-    for a in accs:
-        d, k = norm(a.targets[0].value), norm(a.targets[0].slice)
-        ok = norm(a.value).replace(" ", "") in (f"{d}.get({k},0.0)+count", f"{d}.get({k},0)+count", f"count+{d}.get({k},0.0)")
-        rep.decide(ok, rule, g, a, text=f"{d}[{k}] accumulates", what="frequencies of outcomes that coincide after cutting are added, never overwritten",
-                   reason=f"update is {norm(a.value)}")
-    rep.floor("split accumulators", len(accs), 2)
+    from .C18 import check_post_selection_functions
+    check_post_selection_functions(idx, rep, "K9.frequency-split")
